@@ -296,7 +296,13 @@ class Connection(object):
                 proxy.____refcount__ += 1  # if cached then remote incremented refcount, so sync refcount
             else:
                 proxy = self._netref_factory(id_pack)
-                self._proxy_cache[id_pack] = proxy
+                # inspecting the class may have served a nested request that already created a proxy for this very
+                # object: keep that one (the fresh proxy's finalizer hands its reference back to the owner)
+                cached = self._proxy_cache.get(id_pack)
+                if cached is not None:
+                    proxy = cached
+                else:
+                    self._proxy_cache[id_pack] = proxy
             return proxy
         raise ValueError("invalid label %r" % (label,))
 
